@@ -1215,12 +1215,7 @@ class t2grid(object):
         if fix_blocknames: mapping = fix_block_mapping(blockmap)
 
         for blk in self.blocklist:
-            name = blk.name
-            if name in blockmap:
-                del self.block[name]
-                mapped_name = blockmap[name]
-                self.block[mapped_name] = blk
-                blk.name = mapped_name
+            if blk.name in blockmap: blk.name = blockmap[blk.name]
             cons = set()
             for names in list(blk.connection_name):
                 con = []
@@ -1229,6 +1224,10 @@ class t2grid(object):
                     con.append(mapped_name)
                 cons.add(tuple(con))
             blk.connection_name = cons
+
+        # rebuild block dictionary (rather than renaming keys in place, which
+        # can lose blocks if the mapping swaps block names):
+        self.block = dict([(blk.name, blk) for blk in self.blocklist])
 
         self.connection = {}
         for con in self.connectionlist:
